@@ -3,13 +3,20 @@
 CLAIMED = {
     "C08": {
         "design_ref": "DESIGN.md section 5 / C08",
-        "technique": "Coq proof over a hand-written Gallina model of _mapspec.py + per-run differential correspondence (vm_compute)",
+        "technique": "Coq proof over a hand-written Gallina model of _mapspec.py + per-run differential correspondence (vm_compute) "
+                     "+ AST translator for the index arithmetic (Gallina regenerated from the source, equality proofs re-checked per run)",
         "text": "Coq theorems about the Gallina model of pipefunc/map/_mapspec.py (row-major bijection of output_key, input_keys "
-                "selection, constructor accepts exactly the well-formed specs, print/parse round trip, shape, rename/add_axes), "
-                "for all specs, shapes and indices; the model is tied to /repo on every run by evaluating model and "
+                "selection, constructor accepts exactly the well-formed specs, print/parse round trip, shape, rename/add_axes, "
+                "validate_consistent_axes accepts exactly the consistent lists and mapspec_axes/mapspec_dimensions then agree with "
+                "every occurrence), for all specs, shapes and indices, closed by the capstone C08_model_meets_spec (for every "
+                "case, the model's observation satisfies spec_ok); the model is tied to /repo on every run by evaluating model and "
                 "implementation on the same generated and mutated inputs inside Coq, where the formal statement itself "
-                "(spec_ok) judges the implementation's observations.",
-        "note": "Trusted: Coq kernel + vm_compute; hand-written model (tie checked by sampling, bounded by the generator); "
+                "(spec_ok) judges the implementation's observations. The index arithmetic (shape_to_strides, _shape_to_key, "
+                "select_by_mask, external/internal_shape_from_mask, MapSpec.output_key/input_keys) is additionally re-translated "
+                "from the Python AST into coq/gen/Gen_Index.v on every run and coq/gen/Check_Index.v proves, for all inputs, that "
+                "the generated definitions equal the hand-written ones and inherit the index theorems.",
+        "note": "Trusted: Coq kernel + vm_compute; hand-written model (tie checked by sampling, bounded by the generator) except the "
+                "index arithmetic, whose tie is harness/translate_index.py + Base/PyPrim.v (the semantics given to the Python subset); "
                 "Python harness; ASCII identifiers only.",
     },
     "C01": {
